@@ -3,9 +3,9 @@ LEVEL = "proof"
 LEAN_MODULES = ["CifModel.Props.C07", "CifModel.Props.ReviewC07"]
 REQUIRED = ["CifModel.C07_serialize_roundtrip", "CifModel.C07_serialize_buffer", "CifModel.C07_buf_write_terminates",
             "CifModel.C07_buf_write_ok", "CifModel.C07_default_cap_ok", "CifModel.C07_columns_roundtrip",
-            "CifModel.C07_schema_link", "CifModel.C07_numb_in_list", "CifModel.C07_numb_in_list_full", "CifModel.C07_numb_produced_consistent",
+            "CifModel.C07_schema_link", "CifModel.C07_numb_in_list", "CifModel.C07_numb_in_list_full", "CifModel.C07_constructible_wf", "CifModel.C07_constructible_columns", "CifModel.C07_numb_produced_consistent",
             "CifModel.C07_constructible_roundtrip", "CifModel.C07_store_read", "CifModel.C07_store_read_loop_routes",
-            "CifModel.C07_store_read_delivers_cells", "CifModel.C07_numb_in_list_partial", "CifModel.C07_numb_list_roundtrip",
+            "CifModel.C07_store_read_delivers_cells", "CifModel.C07_stored_read_identical", "CifModel.C07_refused_not_stored", "CifModel.C07_numb_in_list_partial", "CifModel.C07_numb_list_roundtrip",
             "CifModel.C07_cex_buf_write_pinned", "CifModel.C07_cex_buf_write_cap1", "CifModel.C07_cex_empty_digits"]
 GEN = ["ErrCodes", "ValueCols"]
 FAMILIES = ["ser", "storeval"]
@@ -24,20 +24,41 @@ ASSUMPTIONS = [
     "the double cif_value_get_number computes for column `val` is never a NaN (SQLite would store NULL and the CHECK constraint "
     "would refuse the row); observed for huge / tiny exponents by family storeval",
     "values are smaller than the address space (serialised size < 2^64 bytes) — hypothesis of C07_serialize_buffer / wfValue",
-    "C07_store_read is stated over group gF's store model (Model/Store.lean, Model/PktItr.lean), which keeps a value V per "
-    "(container, item, row): that this is what SET_VALUE_PROPS + SQLite + GET_VALUE_PROPS amount to is C07_columns_roundtrip; that "
-    "the store model follows container.c / loop.c / pktitr.c is property C04's correspondence; each of the five routes is also "
-    "exercised end to end by family storeval",
+    "group gF's store model (Model/Store.lean, Model/PktItr.lean) keeps a value V per (container, item, row) where the C keeps a "
+    "row of columns; Model/StoreCodec.lean composes the two: every value goes through image = fromColumns . checks . toColumns on "
+    "its way into the table, i.e. a cell of the store model holds what the bound columns denote (encode and decode are applied "
+    "together at write time; the C decodes at read time — the same function of the bound row, SQLite returning bound columns "
+    "unchanged is in TRUSTED_BASE). C07_stored_read_identical is about these composed operations; that the store model follows "
+    "container.c / loop.c / pktitr.c is property C04's correspondence; each route is also exercised end to end by family storeval",
+    "cif_table_serialize writes `key_orig == key ? NULL : key_orig`; the model's serEntries always writes the original key as a "
+    "string (second branch): table entries built through the public API never share the two blocks (cif_map_set_item allocates "
+    "key_orig separately, the clone duplicates both) — proved at heap level for the API's constructors (C19: mapSetItemH, "
+    "buildEntries) but ASSUMED here for every table that reaches the serialiser; family ser compares the real bytes",
 ]
 PARTIAL = [
+    "route `parser` (cif_parse storing what it read): NO theorem composes the parser model (its own Cif tree, property C01/C03) with "
+    "the store model; carried by correspondence only (family storeval route parse incl. values of 70 000 - 300 000 units)",
+    "read path cif_walk and the assembly of packets by cif_pktitr_next_packet: the theorems stop at the SQL statement both read "
+    "(GET_LOOP_VALUES_SQL returns a row for the cell and only rows carrying the value: ReadsBack.loopValuesSql); that next_packet / "
+    "walk hand exactly these row values to the caller is C06 / C14 territory and is carried here by correspondence (storeval reads "
+    "back by get_value, iteration AND walk)",
+    "the numeric double value (column `val`, cif_value_get_number): the column model treats it as content-free (`SqlVal.real`), "
+    "because the reader rebuilds a number from val_text / val_digits / su_digits / scale and never from `val`; that get_number of "
+    "the value read back equals get_number of the value stored follows from identical text+digits+scale by determinism of "
+    "the conversion (property C10), not stated as a C07 theorem; family storeval compares the doubles bit for bit",
+    "several packets: for set_value on an item of a loop with n >= 2 packets get_value's flag (CIF_AMBIGUOUS_ITEM) is left "
+    "existential in C07_store_read / C07_stored_read_identical (the value delivered is pinned)",
     "independence of the stored copy from the caller's object: immediate in the model (values are immutable); at the C level "
     "observed by family storeval (the object is changed and released before reading back) under ASan",
 ]
 LEVEL_TEXT = ("Proof about an executable Lean model of the serialiser/deserialiser, the write buffer with its growth loop as "
               "written, and the value<->column mapping with the schema's CHECK constraints (re-extracted from the sources on every "
               "run): round trip for every value at any depth and size, termination and in-bounds writes of the buffer, column round "
-              "trip, numbers from every number-producing API function re-parse to their fields, and — composed with the store model "
-              "of C04 — read-after-write for set_value, add_item, add_packet and iterator update. Tied to the C by differential execution: family ser (real serialise -> free -> deserialise, direct calls of "
+              "trip, numbers from every number-producing API function re-parse to their fields and pass the CHECK constraints "
+              "(bridge constructible -> well-formed), and — store model of C04 composed with the codec (Model/StoreCodec: every value "
+              "enters the table through fromColumns . checks . toColumns) — for every constructible value: stored through set_value, "
+              "add_item, add_packet or iterator update, both reading statements (GET_VALUE_SQL, GET_LOOP_VALUES_SQL) return it "
+              "identical; set_value -> get_value at API level with the two answers separated (ok(v) iff the loop has a packet). Tied to the C by differential execution: family ser (real serialise -> free -> deserialise, direct calls of "
               "cif_buf_write) and family storeval (five storing routes x three read-back paths through SQLite).")
 LEVEL_NOTE = ("C07_numb_in_list is proved at full strength (numbers from parse_numb, init_numb, autoinit_numb, create/init, via group "
               "gB's initNumb_roundtrip = C10_init_text_roundtrip / C10_autoinit_text_roundtrip; C07_numb_in_list_full states it together with the serialise -> deserialise round trip). Trusted: word-level buffer "
